@@ -481,6 +481,21 @@ func (vc *VC) loopEnv(st *State, li *loopInfo, old *Heap) *Env {
 		}
 	}
 	e.locals = func(ce *Env, name string) (TV, bool) {
+		if (strings.HasPrefix(name, "_idx") || strings.HasPrefix(name, "_done")) && name != "_idx" && name != "_done" {
+			ord := 0
+			fmt.Sscanf(strings.TrimLeft(name, "_idxdone"), "%d", &ord)
+			for _, lj := range vc.loops {
+				if lj.ordinal == ord {
+					for _, ins := range lj.header.Instrs {
+						if phi, ok := ins.(*ssa.Phi); ok && phi.Comment == "rangeindex" {
+							if pv, ok := st.vals[phi]; ok {
+								return TV{T: app("+", pv.T, "1"), S: stInt}, true
+							}
+						}
+					}
+				}
+			}
+		}
 		if name == "_range" {
 			// the slice a range loop iterates over (when the range expression has no name of its own)
 			for _, ins := range li.header.Instrs {
@@ -1522,13 +1537,17 @@ func (vc *VC) execSlice(st *State, x *ssa.Slice) {
 			hi = app("strlen", base.T)
 		}
 		vc.safety(st, and(app("<=", "0", lo), app("<=", lo, hi), app("<=", hi, app("strlen", base.T))), "string-slice-bounds", x)
-		vc.d.declFun("str_sub", []Sort{"Str", "Int", "Int"}, "Str")
-		vc.d.axiom("(forall ((s Str) (a Int) (b Int)) (! (=> (and (<= 0 a) (<= a b) (<= b (strlen s))) (= (strlen (str_sub s a b)) (- b a))) :pattern ((str_sub s a b))))")
-		vc.d.axiom("(forall ((s Str)) (! (= (str_sub s 0 (strlen s)) s) :pattern ((strlen s))))")
+		vc.declStrSub()
 		st.vals[x] = Val{T: app("str_sub", base.T, lo, hi), Typ: x.Type()}
 	default:
 		vc.unsupported(x, "slice of %v", x.X.Type())
 	}
+}
+
+func (vc *VC) declStrSub() {
+	vc.d.declFun("str_sub", []Sort{"Str", "Int", "Int"}, "Str")
+	vc.d.axiom("(forall ((s Str) (a Int) (b Int)) (! (=> (and (<= 0 a) (<= a b) (<= b (strlen s))) (= (strlen (str_sub s a b)) (- b a))) :pattern ((str_sub s a b))))")
+	vc.d.axiom("(forall ((s Str)) (! (= (str_sub s 0 (strlen s)) s) :pattern ((strlen s))))")
 }
 
 func (vc *VC) execLookup(st *State, x *ssa.Lookup) {
